@@ -167,7 +167,14 @@ class Match:
           glom.MatchError
 
         """
-        return glom(target, self)
+        return glom(target, self._without_default())
+
+    def _without_default(self):
+        # verify() and matches() report on the pattern: the default is
+        # what glom() gives back for a target that does not match
+        if self.default is _MISSING:
+            return self
+        return type(self)(self.spec)
 
     def matches(self, target):
         """A convenience method on a :class:`Match` instance, returns
@@ -180,7 +187,7 @@ class Match:
            target: Target value or data structure to match against.
         """
         try:
-            glom(target, self)
+            glom(target, self._without_default())
         except GlomError:
             return False
         return True
